@@ -316,7 +316,15 @@ fn check_state(root: &str, tag: &str, base: usize, path: &[Op], page: u64, divse
 		drop(w);
 	}
 	// ---- repairs on the original wallet
+	// (divergences, scan from the block of the divergence instead of from 1)
+	let mut plans: Vec<(&Vec<Div>, bool)> = divsets.iter().map(|d| (d, false)).collect();
 	for ds in divsets.iter() {
+		// wrongly-unspent records are repaired by the scan's full output refresh, whatever the start height
+		if ds.len() == 1 && ds[0] == Div::CancelAfterPost {
+			plans.push((ds, true));
+		}
+	}
+	for (ds, late_start) in plans.into_iter() {
 		for delete_unconfirmed in [false, true].iter() {
 			if !*delete_unconfirmed && ds.iter().any(|d| needs_delete_unconfirmed(*d)) {
 				continue; // the statement promises these repairs only "when asked to drop pending transactions"
@@ -338,9 +346,10 @@ fn check_state(root: &str, tag: &str, base: usize, path: &[Op], page: u64, divse
 			}
 			out.cases += 1;
 			let a = w.w("A");
-			let case = json!({"divergences": ds, "delete_unconfirmed": delete_unconfirmed});
-			let dname = ds.iter().map(|d| format!("{:?}", d)).collect::<Vec<_>>().join("+");
-			match catch(|| a.scan(Some(1), *delete_unconfirmed)) {
+			let start_h = if late_start { w.node.height() } else { 1 };
+			let case = json!({"divergences": ds, "delete_unconfirmed": delete_unconfirmed, "late_start": late_start});
+			let dname = format!("{}{}", ds.iter().map(|d| format!("{:?}", d)).collect::<Vec<_>>().join("+"), if late_start { "@late-start" } else { "" });
+			match catch(|| a.scan(Some(start_h), *delete_unconfirmed)) {
 				Err(p) => {
 					let site = take_last_panic().map(|x| panic_site(&x.1)).unwrap_or_default();
 					out.problems.push((format!("repair/scan-panics/{}", site), format!("scan after {} panicked: {}", dname, p), desc(case)));
@@ -361,7 +370,7 @@ fn check_state(root: &str, tag: &str, base: usize, path: &[Op], page: u64, divse
 			}
 			// idempotence
 			let before = view(a);
-			match catch(|| a.scan(Some(1), *delete_unconfirmed)) {
+			match catch(|| a.scan(Some(start_h), *delete_unconfirmed)) {
 				Ok(Ok(())) => {
 					let after = view(a);
 					if after != before {
